@@ -155,3 +155,59 @@ def _np_histogram(self, interp, a, bins=10, range=None, **k):
 
 
 NumpyO.np_histogram = _np_histogram
+
+
+class _F32:
+    """np.float32 seen by code that runs on object arrays: as a dtype argument it means `a float array` (object storage
+    here); called on an array it is the identity on symbolic data"""
+
+    def __call__(self, x, *a, **k):
+        if isinstance(x, _np.ndarray) and x.dtype == object:
+            return x
+        return _np.float32(x, *a, **k)
+
+    def __eq__(self, other):
+        return other is self or other == _np.float32
+
+    def __hash__(self):
+        return hash(_np.float32)
+
+
+F32 = _F32()
+_FLOATS = (float, _np.float32, _np.float64, "float32", "float64", "float", F32)
+
+
+def _np_zeros2(self, interp, shape, dtype=float, **k):
+    if dtype in _FLOATS:
+        a = _np.empty(shape, dtype=object)
+        a[...] = 0.0
+        return a.view(OArr)
+    return _np.zeros(shape, dtype=dtype, **k)
+
+
+def _np_einsum(self, interp, spec, a, b):
+    if spec == "...ji,...jk->...ik":
+        a, b = _np.asarray(a, dtype=object), _np.asarray(b, dtype=object)
+        out = _np.empty(a.shape[:-2] + (a.shape[-1], b.shape[-1]), dtype=object)
+        for lead in _np.ndindex(*a.shape[:-2]):
+            for i in range(a.shape[-1]):
+                for kk in range(b.shape[-1]):
+                    out[lead + (i, kk)] = sum(a[lead + (j, i)] * b[lead + (j, kk)] for j in range(a.shape[-2]))
+        return out.view(OArr)
+    return _np.einsum(spec, a, b)
+
+
+NumpyO.np_zeros = _np_zeros2
+NumpyO.np_empty = _np_zeros2
+NumpyO.np_einsum = _np_einsum
+NumpyO.np_float32 = None
+_orig_getattr = NumpyO.sym_getattr
+
+
+def _getattr(self, interp, name):
+    if name == "float32":
+        return F32
+    return _orig_getattr(self, interp, name)
+
+
+NumpyO.sym_getattr = _getattr
